@@ -38,7 +38,7 @@ func DecodeStrict(reader io.Reader, into any) error {
 		return fmt.Errorf("line %d: unexpected additional YAML document", additionalDocument.Line)
 	}
 
-	if err := checkDocumentShape(&document, reflect.TypeOf(into)); err != nil {
+	if err := checkDocumentShape(&document, reflect.TypeOf(into), make(map[checkedAlias]struct{})); err != nil {
 		return err
 	}
 
@@ -61,7 +61,14 @@ func isNullNode(node *yaml.Node) bool {
 // checks are made on what the configuration language defines (lists of rules,
 // mappings of options), not inside the free-form values it carries (`any`:
 // defaults, constants, hints), where `[~, 80]` is a value like any other.
-func checkDocumentShape(node *yaml.Node, target reflect.Type) error {
+// checkedAlias is an anchored node that was checked against a type: what an
+// alias stands for is checked once, however many aliases refer to it.
+type checkedAlias struct {
+	node   *yaml.Node
+	target reflect.Type
+}
+
+func checkDocumentShape(node *yaml.Node, target reflect.Type, checked map[checkedAlias]struct{}) error {
 	for target != nil && target.Kind() == reflect.Pointer {
 		target = target.Elem()
 	}
@@ -75,7 +82,7 @@ func checkDocumentShape(node *yaml.Node, target reflect.Type) error {
 			return fmt.Errorf("line %d: empty document", node.Line)
 		}
 
-		return checkDocumentShape(node.Content[0], target)
+		return checkDocumentShape(node.Content[0], target, checked)
 	case yaml.MappingNode:
 		for i := 0; i+1 < len(node.Content); i += 2 {
 			key := node.Content[i]
@@ -86,7 +93,7 @@ func checkDocumentShape(node *yaml.Node, target reflect.Type) error {
 			// a merge key (`<<: *defaults`, `<<: [*a, *b]`) brings the keys of other mappings
 			// into this one: they are checked as keys of this mapping.
 			if key.Tag == "!!merge" {
-				if err := checkMergedMappings(node.Content[i+1], target); err != nil {
+				if err := checkMergedMappings(node.Content[i+1], target, checked); err != nil {
 					return err
 				}
 				continue
@@ -101,7 +108,7 @@ func checkDocumentShape(node *yaml.Node, target reflect.Type) error {
 				return fmt.Errorf("line %d: field %s not found in type %s", key.Line, key.Value, target)
 			}
 
-			if err := checkDocumentShape(node.Content[i+1], member); err != nil {
+			if err := checkDocumentShape(node.Content[i+1], member, checked); err != nil {
 				return err
 			}
 		}
@@ -121,7 +128,7 @@ func checkDocumentShape(node *yaml.Node, target reflect.Type) error {
 				return fmt.Errorf("line %d: empty list entry", item.Line)
 			}
 
-			if err := checkDocumentShape(item, itemType); err != nil {
+			if err := checkDocumentShape(item, itemType, checked); err != nil {
 				return err
 			}
 		}
@@ -132,7 +139,15 @@ func checkDocumentShape(node *yaml.Node, target reflect.Type) error {
 			return nil
 		}
 
-		return checkDocumentShape(node.Alias, target)
+		// anchors that use each other (`&b [*a, *a]`, `<<: [*a, *a]`) would otherwise be
+		// walked once per path that leads to them
+		alias := checkedAlias{node: node.Alias, target: target}
+		if _, done := checked[alias]; done {
+			return nil
+		}
+		checked[alias] = struct{}{}
+
+		return checkDocumentShape(node.Alias, target, checked)
 	case yaml.ScalarNode:
 		return nil
 	}
@@ -142,13 +157,13 @@ func checkDocumentShape(node *yaml.Node, target reflect.Type) error {
 
 // checkMergedMappings checks the value of a merge key: a mapping, or a list of
 // mappings, each of them possibly given by an alias.
-func checkMergedMappings(node *yaml.Node, target reflect.Type) error {
+func checkMergedMappings(node *yaml.Node, target reflect.Type, checked map[checkedAlias]struct{}) error {
 	if node.Kind != yaml.SequenceNode {
-		return checkDocumentShape(node, target)
+		return checkDocumentShape(node, target, checked)
 	}
 
 	for _, item := range node.Content {
-		if err := checkDocumentShape(item, target); err != nil {
+		if err := checkDocumentShape(item, target, checked); err != nil {
 			return err
 		}
 	}
